@@ -422,7 +422,7 @@ def _vanish_exhaustive():
 
 
 def gen_cases(rng, tier):
-    n_rand = {"quick": 250, "thorough": 14000, "search": 2500}[tier]
+    n_rand = {"quick": 200, "thorough": 14000, "search": 2500}[tier]
     max_hang = {"quick": 40, "thorough": 400, "search": 40}[tier]
     cases = []
     hang = 0
@@ -443,14 +443,14 @@ def gen_cases(rng, tier):
         cases.extend(_tick0_exhaustive())
         cases.extend(_copy_exhaustive())
     # ---- multi-step histories (warm process_iter() cache) and vanish points
-    n_hist = {"quick": 150, "thorough": 4000, "search": 800}[tier]
+    n_hist = {"quick": 120, "thorough": 4000, "search": 800}[tier]
     n_van = {"quick": 100, "thorough": 4000, "search": 600}[tier]
     for _ in range(n_hist):
         c = _history_case(rng)
         cases.append(_with_copy(rng, c) if rng.random() < 0.35 else c)
     for _ in range(n_van):
         cases.append(_vanish_case(rng))
-    for _ in range({"quick": 250, "thorough": 4000, "search": 800}[tier]):
+    for _ in range({"quick": 200, "thorough": 4000, "search": 800}[tier]):
         c = _clock_case(rng)
         cases.append(_with_copy(rng, c) if rng.random() < 0.25 else c)
     for _ in range({"quick": 30, "thorough": 400, "search": 60}[tier]):
